@@ -21,11 +21,15 @@ for d in sorted(os.listdir("seeded")):
         json.dump(m, open(mp, "w"), indent=1)
         rows.append((d, pid, "does-not-apply")); continue
     subprocess.run(["git", "-C", "/repo", "apply", patch], check=True)
+    evp = os.path.join("evidence", pid + ".json")
+    saved = open(evp, "rb").read() if os.path.exists(evp) else None   # evidence must describe the unchanged tree
     try:
         r = subprocess.run(["./check", pid, "quick"], capture_output=True, text=True)
     finally:
         subprocess.run(["git", "-C", "/repo", "checkout", "--", "."], check=True)
         subprocess.run(["git", "-C", "/repo", "clean", "-fdq"], check=False)
+        if saved is not None:
+            open(evp, "wb").write(saved)
     v = [l for l in r.stdout.split("\n") if l.startswith("VIOLATION")]
     if r.returncode == 1 and v:
         kind = "no-failing-input-found" if all(l.endswith("no-failing-input-found") for l in v) else "failing input"
